@@ -61,20 +61,24 @@ pub fn verif_count_add(c: &mut Count, n: Count) { if *c <= u64::MAX - n { *c = *
 
 pub struct BlockReader { pub gz: GzStream, pub count_bytes_read: Count, pub filesz: FileSz, pub filesz_actual: FileSz, pub blocksz: BlockSz, pub path: FPath }
 impl BlockReader {
+    /// length of block `bo` (unit BLK proves the real function: the block size, or what is left of the file for the last block)
+    pub uninterp spec fn bsz_at(&self, bo: BlockOffset) -> BlockSz;
+    #[verifier::external_body]
+    pub fn blocksz_at_blockoffset(&self, blockoffset: &BlockOffset) -> (r: BlockSz) ensures r == self.bsz_at(*blockoffset), r <= self.blocksz { unimplemented!() }
     #[verifier::external_body]
     pub fn file_offset_at_block_offset_self(&self, blockoffset: BlockOffset) -> (r: FileOffset) ensures r <= u64::MAX / 2 { unimplemented!() }   // file offsets fit in 63 bits
 
     #[verifier::exec_allows_no_decreases_clause]
-    pub fn gz_fill_block(&mut self, blocksz_u: usize, bo_at: BlockOffset, blockoffset: BlockOffset, blockoffset_last: BlockOffset) -> (r: ResultS3ReadBlock)
-        requires blocksz_u as int <= old(self).blocksz, old(self).blocksz <= u64::MAX / 2, old(self).gz.pos <= old(self).gz.data.len()
+    pub fn gz_fill_block(&mut self, bo_at: BlockOffset, blockoffset: BlockOffset, blockoffset_last: BlockOffset) -> (r: ResultS3ReadBlock)
+        requires old(self).blocksz <= u64::MAX / 2, old(self).gz.pos <= old(self).gz.data.len()
         ensures
             final(self).gz.data == old(self).gz.data,
             // C12: the block is the next blocksz_u bytes of the stream, whatever the sizes of the individual reads
-            r is Found ==> r->Found_0@ == old(self).gz.data.subrange(old(self).gz.pos as int, old(self).gz.pos + blocksz_u)
-                && final(self).gz.pos == old(self).gz.pos + blocksz_u,
+            r is Found ==> r->Found_0@ == old(self).gz.data.subrange(old(self).gz.pos as int, old(self).gz.pos + old(self).bsz_at(bo_at))
+                && final(self).gz.pos == old(self).gz.pos + old(self).bsz_at(bo_at),
     {
-        let ghost d = self.gz.data; let ghost p0 = self.gz.pos;
-//@cut slice path=src/readers/blockreader.rs impl=BlockReader fn=read_block_FileGz anchor="const BUF_SZ: usize = 2056;" take=range end_anchor="while bytes_read_actual < bytes_read_expect" label=GZ-FILL
+        let ghost d = self.gz.data; let ghost p0 = self.gz.pos; let ghost want = self.bsz_at(bo_at);
+//@cut slice path=src/readers/blockreader.rs impl=BlockReader fn=read_block_FileGz anchor="let blocksz_u: usize = self.blocksz_at_blockoffset(" take=range end_anchor="while bytes_read_actual < bytes_read_expect" label=GZ-FILL
 //@replace "(self .gz .as_mut() .unwrap() .decoder) .read(buf[..readsz].as_mut())" "verif_gz_read(&mut self.gz, &mut buf, readsz)" ws=1
 //@replace "self.count_bytes_read += size_ as Count;" "verif_count_add(&mut self.count_bytes_read, size_ as Count);" count=*
 //@replace "buf.fill(0);" "verif_fill_zero(&mut buf);"
@@ -92,6 +96,7 @@ impl BlockReader {
                     forall|i: int| 0 <= i < bytes_read_actual ==> #[trigger] block@[i] == d[p0 + i],
                     reads_actual <= bytes_read_actual, self.blocksz == old(self).blocksz,
                     d == old(self).gz.data, p0 == old(self).gz.pos, p0 + bytes_read_actual <= d.len(), blocksz_u as int <= self.blocksz, self.blocksz <= u64::MAX / 2,
+                    blocksz_u == want, want == old(self).bsz_at(bo_at),
 //@end
         proof { assert(block@ =~= d.subrange(p0 as int, p0 + blocksz_u)); }
         ResultS3ReadBlock::Found(BlockP::new(block))
@@ -116,14 +121,16 @@ impl BlockReader {
     pub fn path(&self) -> (r: &FPath) { unimplemented!() }
     /// the same for a bzip2 file: read_block_FileBz2 reads straight into the tail of the block
     #[verifier::exec_allows_no_decreases_clause]
-    pub fn bz2_fill_block(&mut self, blocksz_u: usize, bo_at: BlockOffset, blockoffset: BlockOffset, blockoffset_last: BlockOffset) -> (r: ResultS3ReadBlock)
+    pub fn bz2_fill_block(&mut self, bo_at: BlockOffset, blockoffset: BlockOffset, blockoffset_last: BlockOffset) -> (r: ResultS3ReadBlock)
         requires old(self).gz.pos <= old(self).gz.data.len()
         ensures
             final(self).gz.data == old(self).gz.data,
-            r is Found ==> r->Found_0@ == old(self).gz.data.subrange(old(self).gz.pos as int, old(self).gz.pos + blocksz_u)
-                && final(self).gz.pos == old(self).gz.pos + blocksz_u,
+            r is Found ==> r->Found_0@ == old(self).gz.data.subrange(old(self).gz.pos as int, old(self).gz.pos + old(self).bsz_at(bo_at))
+                && final(self).gz.pos == old(self).gz.pos + old(self).bsz_at(bo_at),
     {
-        let ghost d = self.gz.data; let ghost p0 = self.gz.pos;
+        let ghost d = self.gz.data; let ghost p0 = self.gz.pos; let ghost want = self.bsz_at(bo_at);
+//@cut slice path=src/readers/blockreader.rs impl=BlockReader fn=read_block_FileBz2 anchor="let blocksz_u: usize = self.blocksz_at_blockoffset(" take=stmt label=BZ2-SIZE
+//@end
 //@cut slice path=src/readers/blockreader.rs impl=BlockReader fn=read_block_FileBz2 anchor="let mut block = Block::with_capacity(blocksz_u);" take=range end_anchor="while bytes_read < blocksz_u" label=BZ2-FILL
 //@replace "reader.read(&mut block[bytes_read..])" "verif_read_tail(&mut self.gz, &mut block, bytes_read)"
 //@replace "self.count_bytes_read += size as Count;" "verif_count_add(&mut self.count_bytes_read, size as Count);"
@@ -138,7 +145,7 @@ impl BlockReader {
 //@loop 1
                 invariant
                     self.gz.data == d, d == old(self).gz.data, p0 == old(self).gz.pos, bytes_read <= blocksz_u, block@.len() == blocksz_u,
-                    self.gz.pos == p0 + bytes_read, p0 + bytes_read <= d.len(),
+                    self.gz.pos == p0 + bytes_read, p0 + bytes_read <= d.len(), blocksz_u == want, want == old(self).bsz_at(bo_at),
                     forall|i: int| 0 <= i < bytes_read ==> #[trigger] block@[i] == d[p0 + i],
 //@end
         proof { assert(block@ =~= d.subrange(p0 as int, p0 + blocksz_u)); }
@@ -151,16 +158,18 @@ impl BlockReader {
     /// block may come out short only when the decoder reported the end of the data (the checks that follow in the function then
     /// turn a short block that is not the file's last into an error)
     #[verifier::exec_allows_no_decreases_clause]
-    pub fn lz4_fill_block(&mut self, blocksz_u: usize, bo_at: BlockOffset, blockoffset: BlockOffset, blockoffset_last: BlockOffset) -> (r: ResultS3ReadBlock)
+    pub fn lz4_fill_block(&mut self, bo_at: BlockOffset, blockoffset: BlockOffset, blockoffset_last: BlockOffset) -> (r: ResultS3ReadBlock)
         requires old(self).gz.pos <= old(self).gz.data.len(), !old(self).gz.eof_seen
         ensures
             final(self).gz.data == old(self).gz.data,
-            r is Found ==> r->Found_0@.len() <= blocksz_u
+            r is Found ==> r->Found_0@.len() <= old(self).bsz_at(bo_at)
                 && r->Found_0@ == old(self).gz.data.subrange(old(self).gz.pos as int, (old(self).gz.pos + r->Found_0@.len()) as int)
                 && final(self).gz.pos == old(self).gz.pos + r->Found_0@.len()
-                && (r->Found_0@.len() == blocksz_u || final(self).gz.eof_seen),
+                && (r->Found_0@.len() == old(self).bsz_at(bo_at) || final(self).gz.eof_seen),
     {
-        let ghost d = self.gz.data; let ghost p0 = self.gz.pos;
+        let ghost d = self.gz.data; let ghost p0 = self.gz.pos; let ghost want = self.bsz_at(bo_at);
+//@cut slice path=src/readers/blockreader.rs impl=BlockReader fn=read_block_FileLz4 anchor="let blocksz_u: usize = self.blocksz_at_blockoffset(" take=stmt label=LZ4-SIZE
+//@end
 //@cut slice path=src/readers/blockreader.rs impl=BlockReader fn=read_block_FileLz4 anchor="let mut block = Block::with_capacity(blocksz_u);" take=range end_anchor="while bytes_read < blocksz_u" label=LZ4-FILL
 //@replace "reader.read(&mut block[bytes_read..])" "verif_read_tail(&mut self.gz, &mut block, bytes_read)"
 //@replace "self.count_bytes_read += size as Count;" "verif_count_add(&mut self.count_bytes_read, size as Count);"
@@ -178,6 +187,7 @@ impl BlockReader {
                 invariant_except_break
                     block@.len() == blocksz_u, !self.gz.eof_seen,
                 invariant
+                    blocksz_u == want, want == old(self).bsz_at(bo_at),
                     self.gz.data == d, d == old(self).gz.data, p0 == old(self).gz.pos, bytes_read <= blocksz_u,
                     self.gz.pos == p0 + bytes_read, p0 + bytes_read <= d.len(),
                     forall|i: int| 0 <= i < bytes_read ==> #[trigger] block@[i] == d[p0 + i],
